@@ -9,7 +9,27 @@ the first.  Exit status 0 iff all theorems are proved and closed."""
 import os, re, subprocess, sys
 
 COQ_LASSO = os.environ.get("VERIF_COQ_DIR") or os.environ.get("LASSO_COQ_DIR") or "/verif/coq"
-FORBIDDEN = re.compile(r"\b(Axiom|Parameter|Conjecture|Admitted|admit|Variable|Hypothesis)\b")
+FORBIDDEN = re.compile(r"\b(Axiom|Axioms|Parameter|Parameters|Conjecture|Admitted|admit)\b")
+FORBIDDEN_TOP = re.compile(r"\b(Variable|Variables|Hypothesis|Hypotheses|Context)\b")     # allowed inside a Section only
+
+
+def open_sections(text):
+    """names of the sections still open at the end of `text`"""
+    stack = []
+    for m in re.finditer(r"^\s*(Section|End)\s+([A-Za-z0-9_']+)\s*\.", text, flags=re.M):
+        if m.group(1) == "Section": stack.append(m.group(2))
+        elif stack and stack[-1] == m.group(2): stack.pop()
+    return stack
+
+
+def outside_sections(text):
+    out, depth, pos = [], 0, 0
+    for m in re.finditer(r"^\s*(Section|End)\s+([A-Za-z0-9_']+)\s*\.", text, flags=re.M):
+        if depth == 0: out.append(text[pos:m.start()])
+        depth += 1 if m.group(1) == "Section" else -1
+        pos = m.end()
+    if depth <= 0: out.append(text[pos:])
+    return "".join(out)
 
 
 def coqc(workdir, fname):
@@ -22,7 +42,7 @@ def split(text):
     """-> list of ('common', text) / ('thm', name, text)"""
     chunks, cur, mode, name = [], [], "common", None
     for line in text.splitlines(True):
-        m = re.match(r"Theorem\s+([A-Za-z0-9_']+)", line)
+        m = re.match(r"\s*Theorem\s+([A-Za-z0-9_']+)", line)
         if mode == "common" and m:
             if cur: chunks.append(("common", "".join(cur)))
             cur, mode, name = [line], "thm", m.group(1)
@@ -42,11 +62,13 @@ def main():
     workdir, fname = sys.argv[1], sys.argv[2]
     text = open(os.path.join(workdir, fname)).read()
     nocomment = re.sub(r"\(\*.*?\*\)", "", text, flags=re.S)
-    m = FORBIDDEN.search(nocomment)
+    m = FORBIDDEN.search(nocomment) or FORBIDDEN_TOP.search(outside_sections(nocomment))
     if m:
         print("FORBIDDEN vernacular `%s` in %s" % (m.group(1), fname)); sys.exit(1)
     chunks = split(text)
     names = [c[1] for c in chunks if c[0] == "thm"]
+    if len(names) != len(re.findall(r"^\s*(?:Theorem|Lemma|Corollary)\s", nocomment, flags=re.M)) - len(re.findall(r"^\s*(?:Lemma|Corollary)\s", nocomment, flags=re.M)):
+        print("check_thms: theorem count mismatch in %s" % fname); sys.exit(2)
     rc, out = coqc(workdir, fname)
     if rc == 0:
         closed = out.count("Closed under the global context")
@@ -73,7 +95,9 @@ def main():
     def check(job, extra="", tag="iso"):
         name, com, thm = job
         tmp = "%s_%s_%s.v" % (base, tag, name)
-        open(os.path.join(workdir, tmp), "w").write(com + extra + thm + "\nPrint Assumptions %s.\n" % name)
+        body = com + extra + thm
+        closing = "".join("\nEnd %s." % n for n in reversed(open_sections(re.sub(r"\(\*.*?\*\)", "", body, flags=re.S))))
+        open(os.path.join(workdir, tmp), "w").write(body + closing + "\nPrint Assumptions %s.\n" % name)
         rc1, out1 = coqc(workdir, tmp)
         if rc1 == 0 and "Closed under the global context" in out1: return "PROVED", ""
         if rc1 == 0: return "OPEN-ASSUMPTIONS", ""
